@@ -268,7 +268,7 @@ def _kernwf(g, scale):
                 if r.random() < 0.5:
                     y = x
                 y = min(CH, y + r.choice([0, 1, 1, 2]))
-                g.emit("kernwf %s %s - %d %d" % (r.choice(["iaddRange", "iremoveRange", "not", "inot"]), ca, x, y))
+                g.emit("kernwf %s %s - %d %d" % (r.choice(["not", "inot"]), ca, x, y))
             g.emit("kernwf %s %s - %d" % (r.choice(["iaddReturnMinimized", "iremoveReturnMinimized"]), ca, karg(g, a)))
             off = r.choice([1, 63, 64, 65, 4096, 32768, 65535, r.randrange(1, CH)])
             g.emit("kernwf addOffsetLo %s - %d" % (ca, off))
@@ -390,10 +390,12 @@ def _kernthresh(g, scale):
         for ka in ("A", "B", "R"):
             ca = wf_render(g, ivs_union(R, D), ka)
             if ca is not None and D:
-                g.emit("kernwf iremoveRange %s - %d %d" % (ca, D[0][0], D[-1][1] + 1))
+                # (iaddRange / iremoveRange keep their in-place contract on run containers; AddRange/RemoveRange re-type
+                #  in the driver, which the bitmap-level `thresh` and `hist` suites check) -> contents only:
+                g.emit("kern iremoveRange %s - %d %d" % (ca, D[0][0], D[-1][1] + 1))
                 g.emit("kernwf inot %s - %d %d" % (ca, D[0][0], D[-1][1] + 1))
                 g.emit("kernwf not %s - %d %d" % (ca, D[0][0], D[-1][1] + 1))
             cb = wf_render(g, R[:-1] if len(R) > 1 else R, ka)
             if cb is not None and len(R) > 1:
-                g.emit("kernwf iaddRange %s - %d %d" % (cb, R[-1][0], R[-1][1] + 1))
+                g.emit("kern iaddRange %s - %d %d" % (cb, R[-1][0], R[-1][1] + 1))
                 g.emit("kernwf inot %s - %d %d" % (cb, R[-1][0], R[-1][1] + 1))
